@@ -23,9 +23,18 @@
 // (scripts carry them as their 64-bit two's complement pattern) and the library's own hasher; get() is called with the
 // key as int64_t, long and, where the value fits, int and short: the hash must be a function of the key VALUE, whatever
 // C++ type the templated get<KeyCompatible>() is handed (the model's hash is a function N -> N of the key value).
+// Kind 6: frg::hash_map<Base2 *, HV, frg::hash<Base2 *>, LogAlloc> over a pool of `Derived : Base1, Base2` objects (Base2 is a
+// NON-FIRST base: the subobject sits at offset 8) mapped at a FIXED address, so that the pointer hash is a function of the
+// script's key (= pool index i): hash = POOL_BASE + i * sizeof(Derived) + 8 (the drivers compute the same).  get() is called with
+// the key as Base2 * and as Derived * (and as const Base2 * / const Derived * if frg::hash<Base2 *> accepts them): a pointer that
+// compares equal to the key must be hashed like the key, i.e. AFTER conversion to Key.
+// Const view: every successful "g" also runs find() const and ++ on the const_iterator up to end() const and compares the walk with
+// the mutable iterator's walk from find(); every "it" repeats the iteration through the const_iterator (oracle kind refmap).
 // `harness --sizes` prints sizeof(chain *) and sizeof(chain) (parameters of the model).
 #include <unordered_map>
 #include <algorithm>
+#include <type_traits>
+#include <sys/mman.h>
 #include "vharness.hpp"
 #include <frg/hash_map.hpp>
 
@@ -118,6 +127,30 @@ struct HV : vh::TV {   // tracked value that also reports in-block events
 using Map = frg::hash_map<uint64_t, HV, Hasher, LogAlloc>;
 using SMap = frg::hash_map<int64_t, HV, frg::hash<int64_t>, LogAlloc>;     // signed keys, the library's own hasher
 static_assert(sizeof(Map::chain) < 10 * sizeof(Map::chain *), "a node block is smaller than the smallest table");
+struct Base1 { uint64_t a = 1; };
+struct Base2 { uint64_t b = 2; };
+struct Derived : Base1, Base2 { uint64_t c = 3; };
+using PMap = frg::hash_map<Base2 *, HV, frg::hash<Base2 *>, LogAlloc>;     // pointer keys into a pool of Derived objects
+static constexpr uintptr_t POOL_BASE = 0x20000000;   // comp/hashmap/driver*.ml: hash kind 6 = POOL_BASE + 24 * i + 8
+static constexpr size_t POOL_N = 4096;
+static_assert(sizeof(Derived) == 24, "drivers assume sizeof(Derived) == 24");
+static Derived *g_pool = nullptr;
+static void pool_init() {
+	if(g_pool) return;
+	void *p = mmap((void *)POOL_BASE, POOL_N * sizeof(Derived), PROT_READ | PROT_WRITE, MAP_PRIVATE | MAP_ANONYMOUS | MAP_FIXED_NOREPLACE, -1, 0);
+	if(p != (void *)POOL_BASE) { fprintf(stderr, "cannot map the object pool at its fixed address\n"); abort(); }
+	g_pool = (Derived *)p;
+	for(size_t i = 0; i < POOL_N; i++) new(&g_pool[i]) Derived{};
+	Base2 *b = &g_pool[0];
+	if((uintptr_t)b != POOL_BASE + 8) { fprintf(stderr, "Base2 subobject is not at offset 8\n"); abort(); }
+}
+// script key <-> map key
+template<class K> struct KeyConv { static K to(uint64_t k) { return static_cast<K>(k); } };
+template<> struct KeyConv<Base2 *> { static Base2 *to(uint64_t k) { return &g_pool[k % POOL_N]; } };
+static uint64_t key_u64(uint64_t k) { return k; }
+static uint64_t key_u64(int64_t k) { return (uint64_t)k; }
+static uint64_t key_u64(Base2 *p) { return (uint64_t)(static_cast<Derived *>(p) - g_pool); }
+static_assert(sizeof(PMap::chain) == sizeof(Map::chain), "--sizes holds for the pointer-keyed instantiation");
 static_assert(sizeof(SMap::chain) == sizeof(Map::chain) && sizeof(SMap::chain *) == sizeof(Map::chain *), "--sizes holds for both instantiations");
 
 // what the map must own after every op, counted on the registries (not on the model)
@@ -151,7 +184,7 @@ static void dump_table(Map &m) {
 		for(; item; item = item->next, steps++) {
 			if(steps) printf(",");
 			if(steps > limit) { printf("CYCLE"); break; }
-			printf("%d:%llu:%llu", block_of(item), (unsigned long long)(uint64_t)item->entry.template get<0>(),
+			printf("%d:%llu:%llu", block_of(item), (unsigned long long)key_u64(item->entry.template get<0>()),
 				(unsigned long long)item->entry.template get<1>().v);
 		}
 	}
@@ -181,6 +214,38 @@ static HV *get_all(SMap &m, int64_t k) {
 	return p;
 }
 
+template<class PM>
+static HV *get_all_ptr(PM &m, Base2 *k) {
+	HV *p = m.get(k);
+	Derived *d = static_cast<Derived *>(k);
+	unsigned long long i = key_u64(k);
+	get_as(m, d, p, "Derived *", i);
+	// pointers to const: only if the hasher accepts them at all (frg::hash<T *>::operator()(T *) does not)
+	if constexpr(requires(std::remove_cvref_t<decltype(m._hasher)> hh, const Base2 *cb) { hh(cb); }) {
+		get_as(m, (const Base2 *)k, p, "const Base2 *", i);
+		get_as(m, (const Derived *)d, p, "const Derived *", i);
+	}
+	return p;
+}
+
+static HV *get_all(PMap &m, Base2 *k) { return get_all_ptr(m, k); }
+
+// const view: walk from find() const with const_iterator::operator++ to end() const; must be the mutable iterator's walk
+template<class K, class M>
+static void const_walk(M &m, K key, size_t bound, const char *what) {
+	const M &cm = m;
+	std::vector<std::pair<uint64_t, uint64_t>> a, b;
+	for(auto it = m.find(key); it != m.end(); ++it) {
+		a.push_back({key_u64(it->template get<0>()), it->template get<1>().v});
+		if(a.size() > bound) break;
+	}
+	for(auto cit = cm.find(key); !(cit == cm.end()); ++cit) {
+		b.push_back({key_u64(cit->template get<0>()), cit->template get<1>().v});
+		if(b.size() > bound) { vh::oracle("refmap", "%s: const_iterator walk from find() const does not reach end() within size()+8 steps", what); return; }
+	}
+	if(a != b) vh::oracle("refmap", "%s: const_iterator walk from find() const yields %zu entries, the mutable iterator %zu (or contents differ)", what, b.size(), a.size());
+}
+
 // the script on one map; caller_hasher is the harness's own Hasher object ("reseed" changes it)
 template<class K, class M>
 static void run_ops(M &m, const vh::Lines &ls, size_t start, Hasher &caller_hasher, std::unordered_map<uint64_t, uint64_t> &ref) {
@@ -195,12 +260,12 @@ static void run_ops(M &m, const vh::Lines &ls, size_t start, Hasher &caller_hash
 				continue;
 			} else if(o == "i") {
 				uint64_t k = vh::u64(t[1]), v = vh::u64(t[2]);
-				m.insert((K)k, HV{v});
+				m.insert(KeyConv<K>::to(k), HV{v});
 				if(!ref.count(k)) ref[k] = v;   // inserting a present key is outside the property
 				printf("u\n");
 			} else if(o == "x") {
 				uint64_t k = vh::u64(t[1]), v = vh::u64(t[2]);
-				HV &r = m[(K)k];
+				HV &r = m[KeyConv<K>::to(k)];
 				bool had = ref.count(k);
 				uint64_t old = r.get();
 				if(had) { printf("v %llu\n", (unsigned long long)old);
@@ -211,9 +276,10 @@ static void run_ops(M &m, const vh::Lines &ls, size_t start, Hasher &caller_hash
 				ref[k] = v;
 			} else if(o == "g") {
 				uint64_t k = vh::u64(t[1]);
-				HV *p = get_all(m, (K)k);
-				auto it = m.find((K)k);
+				HV *p = get_all(m, KeyConv<K>::to(k));
+				auto it = m.find(KeyConv<K>::to(k));
 				if((p != nullptr) != bool(it)) vh::oracle("refmap", "get and find disagree on key %llu", (unsigned long long)k);
+				if(p) const_walk(m, KeyConv<K>::to(k), ref.size() + 8, ls[i].c_str());
 				uint64_t val = p ? p->get() : 0;
 				if(p) printf("v %llu\n", (unsigned long long)val); else printf("v none\n");
 				auto rit = ref.find(k);
@@ -221,7 +287,7 @@ static void run_ops(M &m, const vh::Lines &ls, size_t start, Hasher &caller_hash
 				else if(p && val != rit->second) vh::oracle("refmap", "key %llu: wrong value", (unsigned long long)k);
 			} else if(o == "r") {
 				uint64_t k = vh::u64(t[1]);
-				auto r = m.remove((K)k);
+				auto r = m.remove(KeyConv<K>::to(k));
 				if(r) printf("v %llu\n", (unsigned long long)r->get()); else printf("v none\n");
 				auto rit = ref.find(k);
 				if((rit != ref.end()) != bool(r)) vh::oracle("refmap", "remove(%llu) %s but reference %s", (unsigned long long)k, r ? "returned a value" : "returned nothing", rit != ref.end() ? "has it" : "does not");
@@ -232,7 +298,7 @@ static void run_ops(M &m, const vh::Lines &ls, size_t start, Hasher &caller_hash
 				std::vector<std::pair<uint64_t, uint64_t>> seen;
 				size_t n = 0;
 				for(auto it = m.begin(); it != m.end(); ++it) {
-					uint64_t k = (uint64_t)it->template get<0>(), v = it->template get<1>().get();
+					uint64_t k = key_u64(it->template get<0>()), v = it->template get<1>().get();
 					printf(" %llu:%llu", (unsigned long long)k, (unsigned long long)v);
 					seen.push_back({k, v});
 					if(++n > ref.size() + 8) { vh::oracle("refmap", "iteration does not terminate within size()+8 steps"); break; }
@@ -241,6 +307,7 @@ static void run_ops(M &m, const vh::Lines &ls, size_t start, Hasher &caller_hash
 				std::vector<std::pair<uint64_t, uint64_t>> want(ref.begin(), ref.end());
 				std::sort(seen.begin(), seen.end()); std::sort(want.begin(), want.end());
 				if(seen != want) vh::oracle("refmap", "iteration yields %zu entries, reference has %zu (or contents differ)", seen.size(), want.size());
+				if(m.size()) { auto first = m.begin(); const_walk(m, (K)first->template get<0>(), ref.size() + 8, "it"); }
 			} else if(o == "rh") {
 				// raw scripts only (pointer-level model): the private rehash() called directly, at any load
 				m.rehash();
@@ -261,7 +328,7 @@ static void run_ops(M &m, const vh::Lines &ls, size_t start, Hasher &caller_hash
 		// every reference key must still be found at the end (cheap full sweep; not part of the event log)
 		g_log_on = false;
 		for(auto &kv : ref) {
-			HV *p = m.get((K)kv.first);
+			HV *p = m.get(KeyConv<K>::to(kv.first));
 			if(!p) { vh::oracle("refmap", "final sweep: present key %llu not found", (unsigned long long)kv.first); break; }
 			if(p->get() != kv.second) { vh::oracle("refmap", "final sweep: key %llu wrong value", (unsigned long long)kv.first); break; }
 		}
@@ -279,7 +346,12 @@ static void body(const vh::Lines &ls) {
 	}
 	g_blk.clear(); g_inblock.clear(); g_next_id = 0; g_log_on = true; g_ev.clear();
 	std::unordered_map<uint64_t, uint64_t> ref;
-	if(h.kind == 5) {
+	if(h.kind == 6) {
+		pool_init();
+		frg::hash<Base2 *> hp;
+		PMap m{hp};
+		run_ops<Base2 *>(m, ls, start, h, ref);
+	} else if(h.kind == 5) {
 		frg::hash<int64_t> hs;
 		SMap m{hs};
 		run_ops<int64_t>(m, ls, start, h, ref);
